@@ -26,7 +26,7 @@ PROP = dict(
              "threaded through the history and diffed after every call; predicates holds_C18_site_* judged on the implementation's records; non-trivial = some call accrued a non-zero amount. "
              "Workload accrual-pair-fee: case = a history of 8-19 steps {later block (0 s .. 2 y), MsgCreate, MsgVaultInterestCalc, MsgDeposit, MsgDraw, AssetKeeper.WasmUpdatePairsVault} through the real "
              "message router / keeper on a fresh extended pair (initial fee zero in 12%, app not whitelisted for vault interest in 8%); 40% of the cases follow the skeleton 'two vaults, fee switched off, "
-             "a vault touched or not, fee switched on again, interest calculated in the same / a later block', case 0 and 10% replay the witness of C18-F2, the rest is random; fee updates by the fee in force: "
+             "a vault touched or not, fee switched on again, interest calculated in the same / a later block', case 0 and 10% replay the former witness of C18-F2 (repaired: fixes/C18-F2) as a regression, the rest is random; fee updates by the fee in force: "
              "zero -> 80% non-zero / 20% zero; non-zero -> 40% zero / 40% another non-zero / 20% the same fee (distribution incl. 'some vault carries its own stamp' printed as setfee:* histograms); "
              "the pair's (fee, stamps) and every vault's (AmountOut, InterestAccumulated, tracker, stamps) are diffed after every step; holds_C18_pair_charge judges what the IMPLEMENTATION charged each "
              "vault in each step against the real CalculationOfRewards at the fee in force before the step over the time since the later of the vault's last settlement and the start of that fee "
